@@ -36,6 +36,8 @@ FTYPES = {
     "OptTup": ("::core::option::Option<(u8, T, u8)>", "T", False, "::core::option::Option::None"),
     "FnT8": ("fn(T) -> u8", "T", False, None),
     "ArrTup": ("[(T, u8); 2]", "T", False, None),
+    # a fn pointer written with its own binder
+    "FnHr": ("for<'x> fn(&'x T) -> &'x T", "T", False, None),
     "QAssocRel": ("<T as dxrt::Tr>::Assoc", "T", False, None),
     # the same types written with redundant parentheses / a trailing comma
     "ParT": ("(T)", "T", False, None),
@@ -61,6 +63,9 @@ def concrete_ok(ft, trait):
         return trait != "Neg"
     if ft == "RefU8":
         return trait in ("Copy", "Clone", "Debug", "PartialEq", "Eq", "PartialOrd", "Ord", "Hash")
+    if ft == "FnHr":
+        # with the operators the harness' own hand-written twin would need a second binder; the plain traits are what matters
+        return trait in PLAIN
     return True
 
 
@@ -393,7 +398,7 @@ def core(rng):
     # every trait x a few characteristic field types, struct form
     for t in PLAIN + C.BINOPS + C.ASSIGNOPS + C.UNOPS:
         for fts in (["PhT", "T"], ["FwdT", "AlwaysT"], ["NeverT"], ["OptT", "u8"], ["ArrN", "Yes"], ["Assoc", "U"], ["TupT8", "Tup8T"],
-                    ["ResT8", "FnT8"], ["QAssocRel", "ArrTup"], ["OptTup"], ["ParT", "TupTc"], ["ParOpt", "RefPar"]):
+                    ["ResT8", "FnT8"], ["FnHr", "T"], ["FnHr"], ["QAssocRel", "ArrTup"], ["OptTup"], ["ParT", "TupTc"], ["ParOpt", "RefPar"]):
             k += 1
             fts = [f for f in fts if concrete_ok(f, t)]
             specs.append({"trait": t, "kind": "struct", "entry": "attr" if k % 2 else "derive", "where_tr": k % 4 == 0, "dv": 0,
